@@ -82,6 +82,10 @@ let run (c : string) (obs : string) : string * string * string =
        let s = unhex arg in
        let got = iget "P" in
        let model = (match mparse s with Some x -> x | None -> got) in
+       (* UnmarshalText / UnmarshalJSON = FromString after Unquote *)
+       let uq = string_of_bytes (unquote (bytes_of_string s)) in
+       let model_t = (match mparse uq with Some x -> x | None -> iget "T") in
+       let model_j = (match mparse uq with Some x -> x | None -> iget "J") in
        (* S: plain decimal literals: optional sign, optional integer digits, optional dot and fraction digits, at least one digit *)
        let n = String.length s in
        let i = ref 0 in
@@ -105,7 +109,7 @@ let run (c : string) (obs : string) : string * string * string =
            "parse-literal"
          end else "parse-junk" in
        let verdict = if !errs = [] then "ok" else "FAIL " ^ String.concat "," (List.rev !errs) in
-       ("P=" ^ e model, verdict, cls ^ "-" ^ ty)
+       ("P=" ^ e model ^ " T=" ^ e model_t ^ " J=" ^ e model_j, verdict, cls ^ "-" ^ ty)
      | "chk" ->
        let raw = BZ.of_string arg in
        let s = string_of_bytes (fx_string places (z_of_bz raw)) in
